@@ -515,6 +515,66 @@ def _bound_poly(cf, tree, fname, bind):
     return norm(p)
 
 
+def counting_sort_slot(cf, fn, idx):
+    """Is `idx` (an index expression in function fn) a slot handed out by a counting sort - a value read from the prefix-sum table P of a
+    histogram H (H[..] = 0; H[level[i]]++ ; P[0] = 0; P[i+1] = P[i] + H[i]; then per point: slot = P[v]; P[v] = slot + 1), directly, through a
+    local, or through a table filled with such values only?  Recognised structurally (no names); the bound slot < number of points is the
+    counting argument that stays an ASSUMPTION."""
+    body = cf.body(fn)
+    asg = []            # (lhs, rhs)
+    incs = []           # incremented lvalues
+    for n in cf.walk(body):
+        if is_assign(n):
+            asg.append((ex(n["inner"][0]), ex(n["inner"][1])))
+        elif n.get("kind") == "UnaryOperator" and n.get("opcode") == "++":
+            incs.append(ex(n["inner"][0]))
+    arrays = {l[1][1] for l, _ in asg if l[0] == "idx" and l[1][0] == "var"} | {t[1][1] for t in incs if t[0] == "idx" and t[1][0] == "var"}
+
+    def var_defs(v):
+        return [r for l, r in asg if l == ("var", v)]
+
+    def reads_of(P, t, depth=0):
+        """t is P[..], or a local defined only by such reads"""
+        if t[0] == "idx" and t[1] == ("var", P):
+            return True
+        if t[0] == "var" and depth < 3:
+            ds = var_defs(t[1])
+            return bool(ds) and all(reads_of(P, d, depth + 1) for d in ds)
+        return False
+    for P in sorted(arrays):
+        st = [(l, r) for l, r in asg if l[0] == "idx" and l[1] == ("var", P)]
+        if not st or any(t[0] == "idx" and t[1] == ("var", P) for t in incs):
+            continue
+        zero = cum = bump = 0
+        H = None
+        okP = True
+        for l, r in st:
+            if l[2] == ("int", 0) and r == ("int", 0):
+                zero += 1
+            elif r[0] == "bin" and r[1] == "+" and r[2][0] == "idx" and r[2][1] == ("var", P) and r[3][0] == "idx" and r[3][1][0] == "var" \
+                    and l[2] == ("bin", "+", r[2][2], ("int", 1)) and r[3][2] == r[2][2]:
+                cum += 1
+                H = r[3][1][1]
+            elif r[0] == "bin" and r[1] == "+" and r[3] == ("int", 1) and reads_of(P, r[2]):
+                bump += 1
+            else:
+                okP = False
+        if not (okP and zero and cum and bump and H):
+            continue
+        hst = [(l, r) for l, r in asg if l[0] == "idx" and l[1] == ("var", H)]
+        hinc = [t for t in incs if t[0] == "idx" and t[1] == ("var", H)]
+        if not hinc or any(r != ("int", 0) for _, r in hst):
+            continue
+        if reads_of(P, idx):
+            return f"{show(idx)} is a slot handed out by the counting sort over {P} (prefix sums of the histogram {H}), each slot < number of points"
+        if idx[0] == "idx" and idx[1][0] == "var":
+            T = idx[1][1]
+            tst = [(l, r) for l, r in asg if l[0] == "idx" and l[1] == ("var", T)]
+            if tst and all(reads_of(P, r) for _, r in tst) and not any(t[0] == "idx" and t[1] == ("var", T) for t in incs):
+                return f"{T} holds slots handed out by the counting sort over {P} (prefix sums of the histogram {H}): a permutation of 0..nspec-1"
+    return None
+
+
 def full_cover(cf, store, fname, bind):
     """Does the store `g[idx] = ..` inside its counted loops cover 0 <= idx < mk*mth ?"""
     t = ex(store)
@@ -543,9 +603,12 @@ def full_cover(cf, store, fname, bind):
         v, lo, hi, _ = loops[0][1]
         if pidx == Poly.var(v) and _bound_poly(cf, hi, fname, bind) == NSPEC:
             return (f"for {v} in [0, nspec): [{show(idx)}] = ...", None)
-        if idx[0] == "idx" and idx[2] == ("var", v) and _bound_poly(cf, hi, fname, bind) == NSPEC:
-            return (f"for {v} in [0, nspec): [{show(idx)}] = ...",
-                    f"{show(idx[1])} is a permutation of 0..nspec-1 (counting sort), so the store covers every slot")
+        if _bound_poly(cf, hi, fname, bind) == NSPEC:
+            why_ = counting_sort_slot(cf, fname, idx)
+            if why_ is not None:
+                # one slot per point, nspec points: the slots are a permutation of 0..nspec-1 (counting argument, assumed), so every element is stored
+                return (f"for {v} in [0, nspec): [{show(idx)}] = ...",
+                        "counting sort recognised structurally: its slots are a permutation of 0..nspec-1, so the store covers every slot")
         return None
     if len(loops) == 2 and pidx is not None:
         (l1, (v1, _, h1, _)), (l2, (v2, _, h2, _)) = loops
